@@ -1384,6 +1384,14 @@ def monitor_c17(sched, res):
                 bad.append(("C17 cancelled call did not return %s one response timeout after its CANCEL" % probe["r"],
                             "op %d: CANCEL at %d, response timeout %d: must return %s at exactly %d; observed %s at %s" % (
                                 probe["o"], probe["t"] - T.rt, T.rt, probe["r"], probe["t"], got[0], got[1])))
+        elif kind == "ret_in":
+            rets = T.rets.get(probe["o"], [])
+            got = rets[0][1]["r"] if rets else None
+            if got not in probe["r"]:
+                bad.append(("C17 API call issued around the end of the transport did not return an error",
+                            "op %d (%s): the router end had stopped reading, then the connection ended: expected %s, observed %s" % (
+                                probe["o"], T.ops.get(probe["o"], {}).get("op"), " or ".join(probe["r"]),
+                                got or "no return before the end of the script")))
         elif kind == "ret":
             rets = T.rets.get(probe["o"], [])
             if not rets:
@@ -1691,6 +1699,70 @@ def gen_c17(rng, tier, keys):
             h.hostile([{"k": "stall"}])
             h.hostile([{"k": "hret", "inv": h.inv, "r": r, "tag": 5}])
             h.hostile([{"k": "end"} if how == "end" else b.msg(how, uri="wamp.close.system_shutdown")])
+            b.ended = True
+            scripts.append(h.finish(probes=False))
+    # F9: an API call issued around the death of the transport returns. The router end has stopped
+    # reading (its writer / session handler is gone), Done() is not closed yet; then the connection
+    # ends: every call blocked handing its request (or its CANCEL) to the peer returns an error,
+    # run() is not held up by a reply of its own, Close() returns, nothing is left, nothing panics.
+    api_kinds = [("subscribe", {}), ("register", {}), ("unsubscribe", {}), ("unregister", {}),
+                 ("publish", {"ack": True}), ("publish", {"ack": False}), ("call", {"ctx": "cancel"}),
+                 ("call", {"ctx": "cancel", "prog": True}), ("callprog", {"ctx": "cancel", "chunks": 2, "prog": True})]
+    for how in ("end", "goodbye", "abort"):
+        for kind, kw in api_kinds:
+            h = Hostile("stall:api-around-end:%s%s%s:%s" % (kind, "-ack" if kw.get("ack") else "", "-prog" if kw.get("prog") else "", how), "stall")
+            b = h.b
+            h.hostile([{"k": "stall"}])
+            lab = b.api(kind, 1 if kind in ("unsubscribe", "unregister") else 5, **kw)
+            o = b.nop
+            h.hostile([lab])
+            h.hostile([{"k": "end"} if how == "end" else b.msg(how, uri="wamp.close.system_shutdown")])
+            b.ended = True
+            b.s["probes"].append({"k": "ret_in", "o": o, "r": ["notconn"]})
+            scripts.append(h.finish(probes=False))
+        # the pending Call's CANCEL cannot be handed over either
+        h = Hostile("stall:cancel-around-end:%s" % how, "stall")
+        b = h.b
+        h.hostile([{"k": "stall"}])
+        h.hostile([{"k": "cancel", "o": h.call_o}])
+        h.hostile([{"k": "end"} if how == "end" else b.msg(how, uri="wamp.close.system_shutdown")])
+        b.ended = True
+        b.s["probes"].append({"k": "ret_in", "o": h.call_o, "r": ["notconn", "ctx_canceled"]})
+        scripts.append(h.finish(probes=False))
+        # run()'s own ERROR for an INVOCATION it cannot serve must not hold run() up
+        for det, reg in (({}, 777), ({"ppt_scheme": V("str", s="bogus")}, 21), ({"ppt_scheme": V("str", s="x_a"), "ppt_serializer": V("int", i=5)}, 21)):
+            h = Hostile("stall:run-reply-around-end:%s:%d" % (how, len(det)), "stall")
+            b = h.b
+            h.hostile([{"k": "stall"}])
+            h.hostile([b.msg("invocation", req={"lit": 1}, reg=reg, tag=3, details=det)])
+            h.hostile([{"k": "end"} if how == "end" else b.msg(how, uri="wamp.close.system_shutdown")])
+            b.ended = True
+            scripts.append(h.finish(probes=False))
+    # a reply for the NEXT request id sent ahead, by a router that has stopped reading: run() finds
+    # the entry (expectReply precedes the send) while the caller is still handing its request over
+    for how in ("end", "goodbye"):
+        h = Hostile("stall:reply-ahead-of-request:%s" % how, "stall")
+        b = h.b
+        h.hostile([{"k": "stall"}])
+        lab = b.api("subscribe", 5)
+        o = b.nop
+        h.hostile([lab])
+        h.hostile([b.msg("subscribed", req={"lit": 4}, sub=55)])
+        h.hostile([{"k": "end"} if how == "end" else b.msg(how, uri="wamp.close.system_shutdown")])
+        b.ended = True
+        b.s["probes"].append({"k": "ret_in", "o": o, "r": ["notconn"]})
+        scripts.append(h.finish(probes=False))
+    # the same race without a stalled reader: the call and the end of the transport in one burst
+    for kind, kw in api_kinds:
+        for first in (0, 1):
+            h = Hostile("stall:api-with-end:%s%s%s:%d" % (kind, "-ack" if kw.get("ack") else "", "-prog" if kw.get("prog") else "", first), "stall")
+            b = h.b
+            lab = b.api(kind, 1 if kind in ("unsubscribe", "unregister") else 5, **dict(kw, **({"chunks": 1} if kind == "callprog" else {})))
+            o = b.nop
+            labs = [lab, {"k": "end"}]
+            if first:
+                labs.reverse()
+            h.hostile(labs)
             b.ended = True
             scripts.append(h.finish(probes=False))
     # a CallProgressive with a progress handler that ends by cancellation / disconnect leaves no goroutine
